@@ -5,12 +5,12 @@ import json, os, textwrap
 NOTES = {
     "C01-a": "not caught: the f_no_ambiguity_nullable_* harnesses reach the changed line, but then CBMC has to build real character "
              "classes (ICU builder) and runs out of memory -> inconclusive (exit 2), no VIOLATION",
-    "C02-a": "quick tier misses it; encoded only by the thorough harness a_atom3_prefix2_n4 (a prefix occurrence whose match attempt FAILS; 20 min, 23 GB)",
+    "C02-a": "quick and thorough tiers miss it; encoded only by the unregistered deep harness a_atom3_prefix2_n4 (a prefix occurrence whose match attempt FAILS; 20 min, 23 GB alone)",
     "C08-a": "not run: CharacterClass::is_disjoint is not encoded by any registered harness (f_is_disjoint_sound, written for exactly "
              "this kind of change, needs 101 iterations of ICU's range iterator and did not finish in 57 min; it was removed)",
-    "C01-b": "quick tier misses it (N=2 cannot hold an empty line before the matching line); thorough a_hasbol_atom_m_n3 encodes it",
-    "C08-b": "same change as C01-b (independently rediscovered): quick misses, thorough a_hasbol_atom_m_n3",
-    "C12-b": "same change as C01-b (independently rediscovered): quick misses, thorough a_hasbol_atom_m_n3",
+    "C01-b": "quick and thorough tiers miss it (N=2 cannot hold an empty line before the matching line); the unregistered deep harness a_hasbol_atom_m_n3 (31 min alone) encodes it",
+    "C08-b": "same change as C01-b (independently rediscovered): missed by the registered tiers, encoded by deep a_hasbol_atom_m_n3",
+    "C12-b": "same change as C01-b (independently rediscovered): missed by the registered tiers, encoded by deep a_hasbol_atom_m_n3",
 }
 root = "/verif/seeded"
 print("| id | what was changed | needs | outcome |")
